@@ -17,17 +17,21 @@
      C08_parse_render_auto_partial  the same through separator inference (exclusion guard)
      C08_int_of_str                 int(str(n)) = n for all integers
      C08_canonical_partial / C08_canonical_auto_partial / C08_fixpoint_partial
-                                    clause 2; guards [wfc], [dot_text_ok], non-blank dot text
+                                    clause 2; guards [wfc] (no finding inside it since the repair of F21's
+                                    printer half), [dot_text_ok], non-blank dot text
      C08_escape_symbol_scan / C08_ensure_escaped_written
                                     ensure_escaped as a left-to-right scan
-     C08_eq_iff_partial             clause 3; guard [no_dot_key] = finding F23
+     C08_eq_parsed                  clause 3 for ANY two texts that parse: == is the comparison of the
+                                    parsed (escaped) segments as plain values (since the repair of F23)
+     C08_eq_iff_partial             clause 3 on the writer's texts; only guards [wf] and the exclusion
+                                    (the former guard [no_dot_key] = finding F23 is gone, so is [wfc])
      C08_append_pop_cut_partial / C08_append_pop_partial
                                     clause 4 for a tail written after a separator, when pop()
                                     cuts a canonical tail or rebuilds (no suffix match)
      C08_*_ok                       side conditions over the regenerated tables
      C08_parse_render_F21           (Example) finding F21, parser half, repaired: escaped / regex quote-wrapped terms
-     C08_canon_F21_refuted          finding F21, printer half (str() of a quote-wrapped term written inside the other quotes)
-     C08_eq_iff_F23_refuted         finding F23 (__eq__ and an escaped dot)
+     C08_canon_F21                  (Example) finding F21, printer half, repaired: str() escapes the quotes of a term
+     C08_eq_iff_F23                 (Example) finding F23, repaired: == and an escaped / demarcated dot
    NOT proved: clause 4 for a tail that carries its own demarcation ([0], [a=b],
    (collector), [&a]) and for accidental suffix matches of a non-canonical tail;
    both are checked on every generated case by harness/c08.py (judge). *)
@@ -79,7 +83,8 @@ Proof. exact key_specials_cover. Qed.
    [canon sp' text] = str() of YAMLPath(text) with the separator set to sp'.
    Guards: [wfc] (= [wf] + what str() cannot re-express: a back-slash right
    before an escapable symbol, "*" in a quoted key, a regex with all ten
-   delimiter candidates; the printer half of F21 inside); [dot_text_ok] = the property's own
+   delimiter candidates; the former F21 clause [quote_wrapped] is gone since
+   SearchTerms.__str__ escapes quotes, C08_canon_F21); [dot_text_ok] = the property's own
    exclusion; a canonical dot text that is blank to str.strip() is the empty
    path (only a single key made of tabs / line feeds: not escapable). ---- *)
 Theorem C08_canonical_partial :
@@ -125,11 +130,25 @@ Theorem C08_ensure_escaped_written :
 Proof. exact ensure_escaped_esc. Qed.
 
 (* ---- clause 3: two paths compare equal exactly when their segments are equal.
-   Guard [no_dot_key] = listed finding F23. ---- *)
+   Since the repair of finding F23 __eq__ compares the ESCAPED segments of the
+   two paths, reduced to plain values ([comparable_seg]: search terms to their
+   four properties, keyword / collector terms to their str()).  First for ANY
+   two texts that parse; then on the writer's texts, where the plain values
+   determine the segments (str() of keyword and collector terms is
+   one-to-one).  The former guards [wfc] and [no_dot_key] are gone: what is
+   left is [wf] (what the notation cannot express) and the property's own
+   exclusion. ---- *)
+Theorem C08_eq_parsed :
+  forall (T1 T2 : string) (s1 s2 : list seg),
+    parse Auto true T1 = Ok s1 -> parse Auto true T2 = Ok s2 ->
+    exists b, y_eq (y_new T1) T2 = Ok b
+              /\ (b = true <-> map comparable_seg s1 = map comparable_seg s2).
+Proof. exact eq_parsed. Qed.
+Print Assumptions C08_eq_parsed.
+
 Theorem C08_eq_iff_partial :
   forall (sp1 sp2 : sep) (l1 l2 : list sseg),
-    wfc sp1 l1 = true -> wfc sp2 l2 = true ->
-    forallb no_dot_key l1 = true -> forallb no_dot_key l2 = true ->      (* F23 *)
+    wf sp1 l1 = true -> wf sp2 l2 = true ->
     dot_text_ok sp1 (render_ref sp1 l1) = true -> dot_text_ok sp2 (render_ref sp2 l2) = true ->
     exists b, y_eq (y_new (render_ref sp1 l1)) (render_ref sp2 l2) = Ok b
               /\ (b = true <-> segs_of l1 = segs_of l2).
@@ -177,7 +196,7 @@ Proof. vm_compute. split; reflexivity. Qed.
 
 Example C08_wf_nonvacuous_quoted_key :
   wf Slash [((Some TKey, AStr "x"), plain_style);
-            ((Some TKey, AStr every_escapable), mkstyle (Some DQ) false false "/"%char)] = true.
+            ((Some TKey, AStr every_escapable), mkstyle (Some DQ) false false "/"%char false)] = true.
 Proof. vm_compute. reflexivity. Qed.
 
 Definition sample_path : list sseg :=
@@ -185,13 +204,13 @@ Definition sample_path : list sseg :=
     ((Some TKey, AStr "dotted.child key"), plain_style);
     ((Some TIndex, AInt (-12)%Z), plain_style);
     ((Some TIndex, AStr "1:2"), plain_style);
-    ((Some TAnchor, AStr "anchor_1"), mkstyle None true false "/"%char);
+    ((Some TAnchor, AStr "anchor_1"), mkstyle None true false "/"%char false);
     ((Some TMatchAll, ANone), plain_style);
     ((Some TTraverse, ANone), plain_style);
     ((Some TKeywordSearch, AKeyword true KHasChild "a b,c"), plain_style);
     ((Some TCollector, ACollector CNone "(a.b)+(c)"), plain_style);
     ((Some TCollector, ACollector CSub "x/y"), plain_style);
-    ((Some TKey, AStr "'quoted' [key]"), mkstyle (Some SQ) false false "/"%char) ].
+    ((Some TKey, AStr "'quoted' [key]"), mkstyle (Some SQ) false false "/"%char false) ].
 
 Example C08_parse_render_nonvacuous :
   wf Dot sample_path = true /\ wf Slash sample_path = true
@@ -202,9 +221,9 @@ Proof. vm_compute. repeat split; reflexivity. Qed.
 (* SEARCH segments with every escapable character in attribute and term *)
 Definition sample_searches : list sseg :=
   [ ((Some TKey, AStr "x"), plain_style);
-    ((Some TSearch, ASearch true MEquals "full name" "Some User's Name"), mkstyle (Some DQ) false false "/"%char);
-    ((Some TSearch, ASearch true MGe "lvl" "5 %"), mkstyle None false true "/"%char);
-    ((Some TSearch, ASearch false MRegex "." "^a/b|c$"), mkstyle None false false "#"%char);
+    ((Some TSearch, ASearch true MEquals "full name" "Some User's Name"), mkstyle (Some DQ) false false "/"%char false);
+    ((Some TSearch, ASearch true MGe "lvl" "5 %"), mkstyle None false true "/"%char false);
+    ((Some TSearch, ASearch false MRegex "." "^a/b|c$"), mkstyle None false false "#"%char false);
     ((Some TSearch, ASearch false MStartsWith "enc" "ENC["), plain_style) ].
 
 Example C08_parse_render_search_nonvacuous :
@@ -219,23 +238,24 @@ Proof. vm_compute. repeat split; reflexivity. Qed.
    a dot text that does not start with "/" and fails for one that does *)
 Definition escapable_path : list sseg :=
   [ ((Some TKey, AStr every_escapable), plain_style);
-    ((Some TKey, AStr every_escapable), mkstyle (Some DQ) false false "/"%char);
-    ((Some TSearch, ASearch true MContains every_escapable "a.b/c(d)e[f]g^h$i%j k'l""m"), mkstyle (Some SQ) false true "/"%char);
-    ((Some TSearch, ASearch false MRegex "x" "^a/b|c#d@e,f;g:h$"), mkstyle None false false "~"%char) ].
+    ((Some TKey, AStr every_escapable), mkstyle (Some DQ) false false "/"%char false);
+    ((Some TSearch, ASearch true MContains every_escapable "a.b/c(d)e[f]g^h$i%j k'l""m"), mkstyle (Some SQ) false true "/"%char false);
+    ((Some TSearch, ASearch false MRegex "x" "^a/b|c#d@e,f;g:h$"), mkstyle None false false "~"%char false) ].
 
 Example C08_canonical_nonvacuous :
   wfc Dot (sample_path ++ escapable_path) = true /\ wfc Slash (sample_path ++ escapable_path) = true
   /\ dot_text_ok Dot (render_ref Dot (sample_path ++ escapable_path)) = true
   /\ (exists c, canon Dot (render_ref Slash escapable_path) = Ok c /\ nonblank c = true /\ dot_text_ok Dot c = true)
-  /\ dot_text_ok Dot (render_ref Dot [((Some TKey, AStr "/"), mkstyle (Some DQ) false false "/"%char)]) = true
-  /\ canon Dot (render_ref Dot [((Some TKey, AStr "/"), mkstyle (Some DQ) false false "/"%char)]) = Ok "/"
+  /\ dot_text_ok Dot (render_ref Dot [((Some TKey, AStr "/"), mkstyle (Some DQ) false false "/"%char false)]) = true
+  /\ canon Dot (render_ref Dot [((Some TKey, AStr "/"), mkstyle (Some DQ) false false "/"%char false)]) = Ok "/"
   /\ dot_text_ok Dot "/" = false.
 Proof. vm_compute. repeat split; try reflexivity. eexists. repeat split; reflexivity. Qed.
 
 Example C08_eq_nonvacuous :
-  forallb no_dot_key [((Some TKey, AStr "a\b/c(d)e[f]g^h$i%j k'l""m"), plain_style)] = true
-  /\ wfc Dot [((Some TKey, AStr "a\b/c(d)e[f]g^h$i%j k'l""m"), plain_style)] = true
-  /\ forallb no_dot_key sample_searches = true.
+  wf Dot [((Some TKey, AStr every_escapable), plain_style)] = true
+  /\ wf Slash [((Some TKey, AStr every_escapable), mkstyle (Some SQ) false false "/"%char false)] = true
+  /\ wf Dot (sample_path ++ escapable_path) = true /\ wf Slash (sample_path ++ sample_searches) = true
+  /\ dot_text_ok Dot (render_ref Dot (sample_path ++ escapable_path)) = true.
 Proof. vm_compute. repeat split; reflexivity. Qed.
 
 (* clauses 2-4 on instances (tests, by computation) *)
@@ -249,8 +269,12 @@ Proof. vm_compute. repeat split; reflexivity. Qed.
 
 Example C08_eq_instances :
   y_eq (y_new (render_ref Dot sample_searches)) (render_ref Slash sample_searches) = Ok true
-  /\ y_eq (y_new "a.b[0]") "/a/b/0" = Ok false.
-Proof. vm_compute. split; reflexivity. Qed.
+  /\ y_eq (y_new (render_ref Dot (sample_path ++ escapable_path))) (render_ref Slash (sample_path ++ escapable_path)) = Ok true
+  /\ y_eq (y_new "a.b[0]") "/a/b/0" = Ok false
+  /\ y_eq (y_new "[a!=b]") "[!a=b]" = Ok true /\ y_eq (y_new "[a\!=b]") "[a!=b]" = Ok false
+  /\ y_eq (y_new "(a.b)") "(/a/b)" = Ok false /\ y_eq (y_new "[max(a)]") "[max( a )]" = Ok true /\ y_eq (y_new "[max(a)]") "[!max(a)]" = Ok false
+  /\ y_eq (y_new "[1]") "'1'" = Ok false /\ y_eq (y_new "a[") "a" = Raise (YPE Generic).
+Proof. vm_compute. repeat split; reflexivity. Qed.
 
 (* non-vacuity of clause 4: a canonical tail and a quoted tail with every
    escapable character; the guard that excludes the path "/" in quotes (dot
@@ -258,8 +282,8 @@ Proof. vm_compute. split; reflexivity. Qed.
 Example C08_append_pop_nonvacuous :
   let k := ((Some TKey, AStr "x"), plain_style) in
   let tail_plain := ((Some TKey, AStr every_escapable), plain_style) in
-  let tail_quoted := ((Some TKey, AStr every_escapable), mkstyle (Some SQ) false false "/"%char) in
-  let slash_key := ((Some TKey, AStr "/"), mkstyle (Some DQ) false false "/"%char) in
+  let tail_quoted := ((Some TKey, AStr every_escapable), mkstyle (Some SQ) false false "/"%char false) in
+  let slash_key := ((Some TKey, AStr "/"), mkstyle (Some DQ) false false "/"%char false) in
   wfc Dot [k; tail_plain] = true /\ tail_canonical Dot tail_plain = true /\ tail_canonical Slash tail_plain = true
   /\ wfc Dot [k; tail_quoted] = true /\ no_suffix_match Dot [k] tail_quoted = true
   /\ no_suffix_match Slash [k] tail_quoted = true
@@ -293,26 +317,45 @@ Example C08_parse_render_F21 :
   /\ parse Auto true "[' '=\'x\']" = Ok [(Some TSearch, ASearch false MEquals "' '" "'x'")].
 Proof. vm_compute. repeat split; reflexivity. Qed.
 
-(* F21, what is left (the printer half): SearchTerms.__str__ does not escape
-   quote characters, so a quote-wrapped term that reached the segments without
-   back-slashes (written inside the OTHER quote pair) is printed bare and
-   re-parses stripped.  [wfc] keeps the guard for the clauses through str(). *)
-Theorem C08_canon_F21_refuted :
-  exists (sp : sep) (l : list sseg),
-    l = [((Some TSearch, ASearch false MEquals "a" "'x'"), plain_style)]
-    /\ wf sp l = true /\ wfc sp l = false
-    /\ render_ref sp l = "[a=\'x\']"
-    /\ parse (Forced sp) true (render_ref sp l) = Ok (segs_of l)
-    /\ path_str (Forced sp) (render_ref sp l) = Ok "[a=\'x\']"
-    /\ path_str (Forced sp) """a""[b=""'x'""]" = Ok "a[b='x']"
-    /\ parse (Forced sp) true """a""[b=""'x'""]" = Ok [(Some TKey, AStr "a"); (Some TSearch, ASearch false MEquals "b" "'x'")]
-    /\ parse (Forced sp) true "a[b='x']" = Ok [(Some TKey, AStr "a"); (Some TSearch, ASearch false MEquals "b" "x")].
-Proof. exact F21_canon_witness. Qed.
+(* F21, the printer half -- REPAIRED (fix in SearchTerms.__str__: the quote
+   characters of a term are back-slashed like its blanks and operator
+   symbols).  A quote-wrapped term that reached the segments without
+   back-slashes -- written inside the OTHER quote pair, a nested demarcation
+   (style [st_nest]) -- used to be printed bare (a[b='x']) and re-parsed
+   stripped (the term x).  The writer's nested style is inside [wf] and [wfc],
+   so C08_canonical_partial / C08_fixpoint_partial cover it; [quote_wrapped]
+   is no longer part of [wfc]. *)
+Example C08_canon_F21 :
+  let nested := mkstyle (Some DQ) false false "/"%char true in
+  let l := [((Some TKey, AStr "a"), plain_style); ((Some TSearch, ASearch false MEquals "b" "'x'"), nested)] in
+  let nested_sq := mkstyle (Some SQ) false false "/"%char true in
+  let l2 := [((Some TSearch, ASearch true MContains "b" "it's ""x"" 'y'"), nested_sq)] in
+  let l3 := [((Some TSearch, ASearch true MContains "b" "say ""x 'y"), nested_sq)] in
+  wfc Dot l = true /\ wfc Slash l = true
+  /\ render_ref Dot l = "a[b=""'x'""]"
+  /\ parse (Forced Dot) true (render_ref Dot l) = Ok (segs_of l)
+  /\ parse (Forced Dot) false (render_ref Dot l) = Ok (segs_of l)       (* the unescaped term holds bare quotes *)
+  /\ path_str (Forced Dot) (render_ref Dot l) = Ok "a[b=\'x\']"
+  /\ parse (Forced Dot) true "a[b=\'x\']" = Ok (segs_of l)
+  /\ path_str (Forced Dot) "a[b=\'x\']" = Ok "a[b=\'x\']"
+  /\ canon Slash (render_ref Dot l) = Ok "/a[b=\'x\']"
+  /\ parse (Forced Dot) true "a[b='x']"                               (* what str() wrote before the repair *)
+     = Ok [(Some TKey, AStr "a"); (Some TSearch, ASearch false MEquals "b" "x")]
+  /\ wfc Dot l2 = true /\ render_ref Dot l2 = "[b!%'it\'s ""x"" \'y\'']"
+  /\ canon Dot (render_ref Dot l2) = Ok "[b!%it\'s\ \""x\""\ \'y\']"
+  /\ wf Dot l3 = false                         (* a single double quote is not a pair: it must be escaped *)
+  /\ render_ref Dot l3 = "[b!%'say ""x \'y']" /\ parse Auto true (render_ref Dot l3) = Raise (YPE Generic).
+Proof. vm_compute. repeat split; reflexivity. Qed.
 
-(* F23: two paths with the same segments (the single key "a.b") that are not ==. *)
-Theorem C08_eq_iff_F23_refuted :
-  exists (l : list sseg),
-    wfc Dot l = true /\ wfc Slash l = true
-    /\ parse Auto true (render_ref Dot l) = parse Auto true (render_ref Slash l)
-    /\ y_eq (y_new (render_ref Dot l)) (render_ref Slash l) = Ok false.
-Proof. exact F23_witness. Qed.
+(* F23 -- REPAIRED (fix in YAMLPath.__eq__: the parsed segments are compared,
+   not the forward-slash texts of the unescaped segments): the single key
+   "a.b" written with an escaped dot, demarcated, and in forward-slash
+   notation compares equal; a different segmentation does not. *)
+Example C08_eq_iff_F23 :
+  let l := [((Some TKey, AStr "a.b"), plain_style)] in
+  wf Dot l = true /\ wf Slash l = true
+  /\ render_ref Dot l = "a\.b" /\ render_ref Slash l = "/a.b"
+  /\ y_eq (y_new (render_ref Dot l)) (render_ref Slash l) = Ok true
+  /\ y_eq (y_new "'a.b'") "a\.b" = Ok true /\ y_eq (y_new "/a.b") """a.b""" = Ok true
+  /\ y_eq (y_new "a.b") "/a.b" = Ok false /\ y_eq (y_new "a\.b") "a.b" = Ok false.
+Proof. vm_compute. repeat split; reflexivity. Qed.
